@@ -20,3 +20,121 @@ pub use pool::TxPool;
 pub use process::PlugTarget;
 pub use service::{TxPoolController, TxPoolServiceBuilder};
 pub use tokio::sync::RwLock as TokioRwLock;
+
+/// verif hook: a read-only dump of the pool's internal bookkeeping (entries with status and
+/// aggregates, parent/child links, input / dep edges, counters), taken under the pool's read lock.
+#[cfg(feature = "verif-hooks")]
+pub mod verif {
+    use crate::pool::TxPool;
+    use ckb_types::packed::{OutPoint, ProposalShortId};
+    use std::sync::{Arc, Mutex, Weak};
+    use tokio::sync::RwLock;
+
+    /// pools of the services started in this process, latest last
+    pub(crate) static POOLS: Mutex<Vec<Weak<RwLock<TxPool>>>> = Mutex::new(Vec::new());
+
+    pub(crate) fn register(pool: &Arc<RwLock<TxPool>>) {
+        POOLS.lock().expect("lock").push(Arc::downgrade(pool));
+    }
+
+    /// One pool entry as the pool sees it
+    #[derive(Clone, Debug)]
+    pub struct EntryDump {
+        /// proposal short id
+        pub id: ProposalShortId,
+        /// transaction
+        pub tx: ckb_types::core::TransactionView,
+        /// "pending" | "gap" | "proposed"
+        pub status: String,
+        /// (cycles, size, fee)
+        pub own: (u64, usize, u64),
+        /// (count, size, cycles, fee)
+        pub ancestors: (usize, usize, u64, u64),
+        /// (count, size, cycles, fee)
+        pub descendants: (usize, usize, u64, u64),
+        /// entry timestamp
+        pub timestamp: u64,
+        /// parents recorded in the links map
+        pub parents: Vec<ProposalShortId>,
+        /// children recorded in the links map
+        pub children: Vec<ProposalShortId>,
+    }
+
+    /// The whole pool
+    #[derive(Clone, Debug, Default)]
+    pub struct PoolDump {
+        /// entries
+        pub entries: Vec<EntryDump>,
+        /// edges.inputs: spent out point -> spender
+        pub input_edges: Vec<(OutPoint, ProposalShortId)>,
+        /// edges.deps: out point -> users
+        pub dep_edges: Vec<(OutPoint, Vec<ProposalShortId>)>,
+        /// ids present in the links map
+        pub link_ids: Vec<ProposalShortId>,
+        /// (pending_count, gap_count, proposed_count, total_tx_size, total_tx_cycles)
+        pub counters: (usize, usize, usize, usize, u64),
+        /// ids held in the conflicts cache
+        pub conflicts: Vec<ProposalShortId>,
+    }
+
+    /// Dump the pool of the most recently started service that is still alive.
+    pub fn dump_latest() -> Option<PoolDump> {
+        let pool = {
+            let pools = POOLS.lock().expect("lock");
+            pools.iter().rev().find_map(|w| w.upgrade())
+        }?;
+        let guard = pool.blocking_read();
+        let map = &guard.pool_map;
+        let mut d = PoolDump::default();
+        for e in map.iter() {
+            let links = map.links.inner.get(&e.id);
+            d.entries.push(EntryDump {
+                id: e.id.clone(),
+                tx: e.inner.transaction().clone(),
+                status: e.status.to_string(),
+                own: (e.inner.cycles, e.inner.size, e.inner.fee.as_u64()),
+                ancestors: (
+                    e.inner.ancestors_count,
+                    e.inner.ancestors_size,
+                    e.inner.ancestors_cycles,
+                    e.inner.ancestors_fee.as_u64(),
+                ),
+                descendants: (
+                    e.inner.descendants_count,
+                    e.inner.descendants_size,
+                    e.inner.descendants_cycles,
+                    e.inner.descendants_fee.as_u64(),
+                ),
+                timestamp: e.inner.timestamp,
+                parents: links
+                    .map(|l| l.parents.iter().cloned().collect())
+                    .unwrap_or_default(),
+                children: links
+                    .map(|l| l.children.iter().cloned().collect())
+                    .unwrap_or_default(),
+            });
+        }
+        d.input_edges = map
+            .edges
+            .inputs
+            .iter()
+            .map(|(k, v)| (k.clone(), v.clone()))
+            .collect();
+        d.dep_edges = map
+            .edges
+            .deps
+            .iter()
+            .map(|(k, v)| (k.clone(), v.iter().cloned().collect()))
+            .collect();
+        d.link_ids = map.links.inner.keys().cloned().collect();
+        d.counters = (
+            map.pending_count,
+            map.gap_count,
+            map.proposed_count,
+            map.total_tx_size,
+            map.total_tx_cycles,
+        );
+        d.conflicts = guard.conflicts_cache.iter().map(|(k, _)| k.clone()).collect();
+        Some(d)
+    }
+}
